@@ -260,9 +260,20 @@ func specSort(tn string) string {
 		return SBytes
 	case "Slice":
 		return SSlice
+	case "Key", "datastore.Key":
+		return SKey
 	}
 	if strings.HasPrefix(tn, "[]") {
 		return SSlice
+	}
+	// ghost collections: Set<K> = (Array K Bool), Map<K,V> = (Array K V)
+	if strings.HasPrefix(tn, "Set<") && strings.HasSuffix(tn, ">") {
+		return arrSort(specSort(tn[4:len(tn)-1]), SBool)
+	}
+	if strings.HasPrefix(tn, "Map<") && strings.HasSuffix(tn, ">") {
+		if k := strings.Index(tn, ","); k > 0 {
+			return arrSort(specSort(tn[4:k]), specSort(tn[k+1:len(tn)-1]))
+		}
 	}
 	return SInt
 }
@@ -419,6 +430,12 @@ func (ev *evaluator) ident(name string) SV {
 		return SV{bigLit(min64s), nil}
 	case "emptyStr":
 		return SV{T(SStr, "emptyStr"), types.Typ[types.String]}
+	case "emptyKeySet":
+		return SV{T(arrSort(SKey, SBool), "((as const (Array Key Bool)) false)"), nil}
+	case "emptyStrSet":
+		return SV{T(arrSort(SStr, SBool), "((as const (Array Str Bool)) false)"), nil}
+	case "emptyIntSet":
+		return SV{T(arrSort(SInt, SBool), "((as const (Array Int Bool)) false)"), nil}
 	case "zeroHdr":
 		return SV{T(SHdr, "zeroHdr"), nil}
 	case "panicking":
@@ -534,6 +551,8 @@ func (ev *evaluator) eval(e Expr) SV {
 
 func nilOfSort(sort string) Term {
 	switch sort {
+	case SKey:
+		return T(SKey, "emptyKey")
 	case SErr:
 		return T(SErr, "nilErr")
 	case SBytes:
@@ -758,6 +777,20 @@ func (ev *evaluator) evalIndex(x *EIndex) SV {
 	base := ev.eval(x.X)
 	switch bv := base.V.(type) {
 	case Term:
+		if strings.HasPrefix(bv.Sort, "(Array ") {
+			// ghost collection (Set<K> / Map<K,V>)
+			k := ev.eval(x.I)
+			var kt Term
+			if k.V == nil {
+				kt = nilOfSort(idxSortOfArray(bv.Sort))
+			} else {
+				kt, _ = k.V.(Term)
+			}
+			if kt.Sort != idxSortOfArray(bv.Sort) {
+				ev.fail("index of sort %s into %s", kt.Sort, bv.Sort)
+			}
+			return SV{tSelect(bv, kt), nil}
+		}
 		if bv.Sort == SSlice {
 			idx, _ := ev.evalTerm(x.I)
 			var et types.Type
@@ -931,6 +964,47 @@ func (ev *evaluator) evalCall(x *ECall) SV {
 			return SV{slArr(t), nil}
 		}
 		return SV{slOff(t), nil}
+	case "apSet", "apVal":
+		// apSet(p) / apVal(p): state of an atomic.Pointer[H] field p (is a value published / which one)
+		p, _ := ev.evalTerm(x.Args[0])
+		if id.Name == "apSet" {
+			return SV{tSelect(ev.heap("AP_set", SBool), p), boolT}
+		}
+		return SV{tSelect(ev.heap("AP_val_Hdr", SHdr), p), nil}
+	case "atomicU64":
+		// atomicU64(a): current value of an atomic.Uint64 field a
+		p, _ := ev.evalTerm(x.Args[0])
+		return SV{tSelect(ev.heap("AT_u64", SInt), p), types.Typ[types.Uint64]}
+	case "decHdr":
+		b, _ := ev.evalTerm(x.Args[0])
+		if b.Sort != SBytes {
+			ev.fail("decHdr() takes bytes")
+		}
+		ev.fc.decls.fun("decHdr", []string{SBytes}, SHdr)
+		return SV{app(SHdr, "decHdr", b), nil}
+	case "sameHdr":
+		// sameHdr(a, b): observationally equal headers (all observers agree)
+		a, _ := ev.evalTerm(x.Args[0])
+		b, _ := ev.evalTerm(x.Args[1])
+		if a.Sort != SHdr || b.Sort != SHdr {
+			ev.fail("sameHdr() takes two headers")
+		}
+		return SV{obsEq(a, b), boolT}
+	case "upd":
+		// upd(m, k, v): ghost collection m with key k set to v
+		m, _ := ev.evalTerm(x.Args[0])
+		k, _ := ev.evalTerm(x.Args[1])
+		vv := ev.eval(x.Args[2])
+		var v Term
+		if vv.V == nil {
+			v = nilOfSort(elemSortOfArray(m.Sort))
+		} else {
+			v, _ = vv.V.(Term)
+		}
+		if !strings.HasPrefix(m.Sort, "(Array ") || k.Sort != idxSortOfArray(m.Sort) || v.Sort != elemSortOfArray(m.Sort) {
+			ev.fail("upd(): sorts do not fit %s[%s] := %s", m.Sort, k.Sort, v.Sort)
+		}
+		return SV{tStore(m, k, v), nil}
 	case "trustedHeadOf":
 		// trustedHeadOf(opts): the header carried by a header.WithTrustedHead option in the variadic list
 		// (zero header if there is none). Options are closure values; only literal lists built at the call
